@@ -14,6 +14,7 @@ CONSTANTS
   ListShapes <- TinyLists
   AtxShapes <- TinyAtx
   Trails = {TRUE}
+  Gaps = {0}
   KindWheel <- FlatWheel
   AtomWheel <- FlatAtomWheel
 INIT Init
